@@ -467,6 +467,10 @@ static std::vector<Sat> satHistory(vh::Rng& r, int n, int style)
     if (style == 0) s = {0.9 + 0.1 * r.unit(), 0.0, 0.0}, s.so = 1 - s.sw;     // water filled, then oil and gas invade
     for (int i = 0; i < n; ++i) {
         if (style == 0) { const double dsw = 0.01 + 0.05 * r.unit(); s.sw -= dsw; s.sg += 0.5 * dsw * r.unit(); s.sw = std::max(0.0, s.sw); s.so = 1 - s.sw - s.sg; }
+        else if (style == 3) {                                                  // gas comes and goes at a constant water saturation
+            if (i == 0) { s.sw = 0.05 + 0.5 * r.unit(); s.sg = 0.05 * r.unit(); }
+            s.sg += (r.coin(2, 3) ? 1 : -1) * 0.08 * r.unit(); s.sg = std::min(1.0 - s.sw, std::max(0.0, s.sg)); s.so = 1 - s.sw - s.sg;
+        }
         else if (style == 1) { s.sw += (r.unit() - 0.5) * 0.2; s.sg += (r.unit() - 0.5) * 0.2; s.sw = std::min(1.0, std::max(0.0, s.sw)); s.sg = std::min(1.0 - s.sw, std::max(0.0, s.sg)); s.so = 1 - s.sw - s.sg; }
         else s = randomSat(r);
         if (style == 2 && r.coin(1, 10)) s.sw = -0.02;                          // out-of-range saturations are clamped by updateHysteresis
@@ -909,7 +913,7 @@ static std::map<std::string, long> propDecks(vh::Rng& r, vh::PropLog& log, int n
             for (int cell = 0; cell < d.ncell; ++cell) {
                 auto& dp = defaultParams(*b.mgr, cell);
                 const double swl = dp.Swl();
-                std::vector<Sat> h = satHistory(q, 8, q.range(0, 2));
+                std::vector<Sat> h = satHistory(q, 8, q.range(0, 3));
                 double minOw = 2, minGo = 2, minPcOw = 2, minPcGo = 2;
                 auto cl = [](double x) { return std::min(1.0, std::max(0.0, x)); };
                 for (const Sat& s : h) {
